@@ -76,12 +76,14 @@ Proof.
     assert (Hb0 : length b0 = k) by (subst b0; now rewrite map_length, enum_from_length).
     destruct i as [|i].
     + cbn [nth_error] in Hi. inversion Hi; subst te. cbn [Nat.mul Nat.add].
-      rewrite nth_error_app1; [|rewrite Hb0; exact Hj]. subst b0. rewrite nth_error_map, enum_from_nth.
+      unfold key in *. rewrite nth_error_app1 by lia. subst b0. rewrite nth_error_map, enum_from_nth.
       destruct (nth_error t0 j) as [a|] eqn:E.
       * cbn [option_map fst snd]. f_equal. f_equal; [f_equal; lia|]. symmetry. now apply nth_error_nth.
       * apply nth_error_None in E. lia.
-    + cbn [nth_error] in Hi. replace (S i * length t0 + j)%nat with (length b0 + (i * length t0 + j))%nat by (cbn [Nat.mul]; lia).
-      rewrite nth_error_app2; [|rewrite Hb0; lia]. replace (length b0 + (i * length t0 + j) - length b0)%nat with (i * length t0 + j)%nat by lia.
+    + cbn [nth_error] in Hi. unfold key in *.
+      replace (S i * k + j)%nat with (length b0 + (i * k + j))%nat by (rewrite Hb0; cbn [Nat.mul]; lia).
+      rewrite nth_error_app2 by lia.
+      replace (length b0 + (i * k + j) - length b0)%nat with (i * k + j)%nat by lia.
       rewrite (IH (N.succ n) i te j Hi Hj). f_equal. f_equal. f_equal. lia.
 Qed.
 
